@@ -25,6 +25,13 @@ func timestamp(t time.Time) int64 {
 	return t.UnixNano() / int64(time.Millisecond)
 }
 
+// timestampDelta returns the difference between the kafka timestamps (whole
+// milliseconds) of t and base, so that the timestamp of base plus the delta is
+// exactly the timestamp of t, whatever their sub-millisecond parts.
+func timestampDelta(t time.Time, base time.Time) time.Duration {
+	return time.Duration(timestamp(t)-timestamp(base)) * time.Millisecond
+}
+
 func makeDuration(ms int32) time.Duration {
 	return time.Duration(ms) * time.Millisecond
 }
